@@ -616,7 +616,13 @@ def _judge(res, sc, target, start, exp, chain_ok, whole_ok, out, mk_stream, expe
             st2 = mk_stream(got)
             again = st2.read(len(exp) * sect)
             if again != data:
-                data = again if len(again) != len(data) else data[:0] + again
+                data = again
+            # ... also when the first part is fetched with a sized read and the rest with read-to-end
+            st3 = mk_stream(got)
+            k = min(len(exp) * sect, 150)
+            part = st3.read(k) + st3.read(-1)
+            if part != data and again == data:
+                data = part
         res.steps += clk.steps
     except StepBudgetExceeded:
         StepClock.acknowledge()
